@@ -234,8 +234,8 @@ func (s *service) ShareContact(ctx context.Context, _ *protocoltypes.ShareContac
 // DecodeContact decodes the Protobuf encoding of a shareable contact which was returned by ShareContact.
 func (s *service) DecodeContact(_ context.Context, req *protocoltypes.DecodeContact_Request) (_ *protocoltypes.DecodeContact_Reply, err error) {
 	contact := &protocoltypes.ShareableContact{}
-	if err := proto.Unmarshal(req.EncodedContact, contact); err != nil {
-		panic(err)
+	if err := proto.Unmarshal(req.GetEncodedContact(), contact); err != nil {
+		return nil, errcode.ErrCode_ErrDeserialization.Wrap(err)
 	}
 
 	return &protocoltypes.DecodeContact_Reply{
